@@ -328,3 +328,22 @@ func ZZModelUnicode() {
 	nd.Assert(strings.TrimSpace(s) == s[lo:hi], "MODELS/strings.TrimSpace")
 	nd.Reach("MODELS/unicode-end")
 }
+
+// ZZModelFprintf: the Fprint family writes what Sprintf builds; a '%' among
+// symbolic format bytes makes the result opaque (not compared here).
+func ZZModelFprintf() {
+	s := nd.StringUpTo("s", nd.Param("N", 2))
+	for i := 0; i < len(s); i++ {
+		nd.Assume(s[i] != '%')
+	}
+	var sb strings.Builder
+	n, err := fmt.Fprintf(&sb, "<%s>", s)
+	nd.Assert(err == nil && n == len(s)+2 && sb.String() == "<"+s+">", "MODELS/Fprintf")
+	sb.Reset()
+	fmt.Fprintf(&sb, s+"\n")
+	nd.Assert(sb.String() == s+"\n", "MODELS/Fprintf-symbolic-format-without-percent")
+	sb.Reset()
+	fmt.Fprint(&sb, s, "x")
+	nd.Assert(sb.String() == s+"x", "MODELS/Fprint")
+	nd.Reach("MODELS/fprintf-end")
+}
